@@ -157,6 +157,12 @@ def run_case(case, R):
     import fixed_format_file as fff
     s = case['s']
     kind = case['kind']
+    # the public helper that builds such dictionaries, used the way a caller with readers of their own would use it: it
+    # hands out new dictionaries and leaves the module's own (default_read_function, fortran_read_function) alone
+    mine = fff.read_function_dict()
+    mine2 = fff.read_function_dict(lambda t: 0.0, lambda t: 0)
+    if mine is fff.fortran_read_function or mine2 is fff.fortran_read_function or mine2 is fff.default_read_function:
+        R.fail('helper:read_function_dict-hands-out-a-module-dictionary', 'read_function_dict() returned the module-level dictionary itself')
     try:
         float(s); py_ok = True
     except ValueError:
